@@ -76,11 +76,11 @@ def jobs(pid, tier):
             return [vrt('C01', [r'once_counted_(val-val|val-exc|exc-drop|val-mvdie)_(wait|coro|hasv)', r'once_(int|ref)_val-exc_wait'], bound=2, workers=2, **R),
                     vrt('C02', [r'wake1_.*_(val|exc|async)', r'wake2_(coro-poll|wait-cb|hasv-sync|coro-coro|cb-cb)_(val|exc|drop|async)'], bound=2, workers=2, **R),
                     vrt('C07', [r'mx2_.*_(dis-dis|dtor-awt|awt-move|move-move)_r1', r'mx3_f[012]_r[03]', r'mxpool_.*', r'mxown_.*'], bound=2, workers=4, **R),
-                    vrt('C09', [r'q_p1_c2_.*', r'q_p2_c1_(block|coro)', r'lq_l1_p2_.*', r'lq_l1_unblock_.*'], bound=2, workers=4, **R),
+                    vrt('C09', [r'q_p1_c2_.*', r'q_p2_c1_(block|coro)', r'lq_l1_p2_.*', r'lq_l1_unblock_.*', r'l?q_observer_.*'], bound=2, workers=4, **R),
                     vrt('C11', [r'pool_w[12]_(coawait|runfn|runfnbig|detached|detachedbig|current)_(stop|selfstop)', r'pool_w2_(coawait-runfn|runfnbig-detached)_stop',
                                  r'pool_w[12]_(coawait|runfn|detached)_racestop'], bound=2, workers=2, **R),
                     vrt('C12', [r'sch_(thread|pool)_(5-10|10-5)(_cancel0)?'], bound=2, workers=4, **R),
-                    vrt('C16', [r'pub1_.*', r'pub2_all_(coro-block|coro-poll)_pub-batch2-close', r'pubmt1_.*', r'pubmt2_coro-coro'], bound=2, workers=4, **R),
+                    vrt('C16', [r'pub1_.*', r'pub2_all_(coro-block|coro-poll)_pub-batch2-close', r'pubmt1_.*', r'pubmt2_coro-coro', r'pubcopy_.*'], bound=2, workers=4, **R),
                     vrt('C17', [r'sf1_.*', r'sf2_promfn_val_(wait-coro|coro-drop|copydrop-poll)_.*'], bound=2, workers=2, **R),
                     vrt('C19', [r'mtsafe_t2_.*'], bound=2, workers=4, **R),
                     vrt('C04', [r'async_.*_d[12](_throw)?'], bound=2, workers=2, **R),
@@ -91,10 +91,10 @@ def jobs(pid, tier):
                 vrt('C02', [r'wake[12]_.*'], bound=3, workers=4, **R),
                 vrt('C02', [r'wake3_.*'], bound=2, workers=16, **R),
                 vrt('C07', [r'mx[23]_.*'], bound=3, workers=8, **R),
-                vrt('C09', [r'q_p1_.*', r'q_p2_c1_.*', r'lq_.*'], bound=3, workers=8, **R),
+                vrt('C09', [r'q_p1_.*', r'q_p2_c1_.*', r'lq_.*', r'q_observer_.*'], bound=3, workers=8, **R),
                 vrt('C11', [r'pool_w[12]_(coawait|runfn|runfnbig|detached|detachedbig|current)(-(coawait|runfn|runfnbig|detached|detachedbig|current))?_(stop|dtor|selfstop|racestop)'], bound=2, workers=8, **R),
                 vrt('C12', [r'sch_.*'], bound=2, workers=8, **R),
-                vrt('C16', [r'pub1_.*', r'pub2_(?!.*poll-poll).*', r'pubmt.*'], bound=2, workers=8, **R),
+                vrt('C16', [r'pub1_.*', r'pub2_(?!.*poll-poll).*', r'pubmt.*', r'pubcopy_.*'], bound=2, workers=8, **R),
                 vrt('C17', [r'sf.*'], bound=2, workers=8, **R),
                 vrt('C19', [r'mtsafe_.*'], bound=3, workers=8, **R),
                 vrt('C04', [r'async_.*'], bound=3, workers=4, **R),
@@ -155,7 +155,7 @@ def jobs(pid, tier):
         return [seq('C10'), vrt('C09', [r'lq_.*'], bound=3, workers=8)]
     if pid == 'C09':
         if q:
-            return [seq('C09'), vrt('C09', [r'q_p1_.*', r'q_p2_c1_(block|coro)'], bound=2, workers=4)]
+            return [seq('C09'), vrt('C09', [r'q_p1_.*', r'q_p2_c1_(block|coro)', r'q_observer_.*'], bound=2, workers=4)]
         return [seq('C09'), vrt('C09', [r'q_p1_.*', r'q_p2_c1_.*'], bound=3, workers=8),
                 vrt('C09', [r'q_p2_c2_.*'], bound=2, workers=16, cache_bits=25),
                 vrt('C09', [r'q_p3_.*'], bound=1, workers=16, cache_bits=25)]
@@ -165,7 +165,7 @@ def jobs(pid, tier):
         return [seq('C12'), vrt('C12', [r'sch_.*'], bound=3, workers=8), vrt('C12', [r'sch_.*'], bound=2, workers=8, spurious=True)]
     if pid == 'C16':
         if q:
-            return [seq('C16'), vrt('C16', [r'pub1_.*', r'pubmt1_.*', r'pubmt2_coro-coro'], bound=2, workers=2),
+            return [seq('C16'), vrt('C16', [r'pub1_.*', r'pubmt1_.*', r'pubmt2_coro-coro', r'pubcopy_.*'], bound=2, workers=2),
                     vrt('C16', [r'pub2_all_(coro-block|coro-coro|block-poll)_pub-batch2-close', r'pub2_recent_coro-block_pub-pub-close'], bound=2, workers=8)]
         return [seq('C16'), vrt('C16', [r'pub1_.*', r'pubmt1_.*'], bound=3, workers=2), vrt('C16', [r'pub2_(?!.*poll-poll).*', r'pubmt2_.*'], bound=2, workers=8)]
     if pid == 'C06':
